@@ -9,6 +9,7 @@
 // Tolerances: 64 n eps relative l2 for ifft/irfft; istft: finite everywhere, |xr[i]-x[i]| <= 1e-9 max|x| wherever the
 // reference accumulated weight is >= 1e-3 of its maximum (weaker than "non-zero").
 #include "vf_fork.hpp"
+#include <cfloat>
 
 using namespace vf;
 using namespace dsplib;
@@ -403,7 +404,7 @@ int main(int argc, char** argv) {
     // ================================================================ ifft / IfftPlan
     for (int n = 1; n <= N; ++n) {
         const std::vector<int> idx = index_set(n, NIMP);
-        const std::string wk = "ifft: rel l2 err/(n eps)";
+        std::string wk = "ifft: rel l2 err/(n eps)";
         auto apis = [&](Sink& s, const IfftPlan& plan, const std::vector<cld>& Xin, const std::vector<cld>& xref, const std::string& letter) {
             const arr_cmplx X = to_arr(Xin);
             arr_cmplx y1 = ifft(X);
@@ -435,6 +436,26 @@ int main(int argc, char** argv) {
                 for (int l = 0; l < Letters::NCLOSED; ++l) {
                     const char* nm = lt.closed(l, a, b);
                     apis(s, plan, b, a, nm);
+                }
+                // extreme magnitudes: X = c * amp * column m (|amp| = 1) is the exact finite transform of the finite signal
+                // c*amp*delta_m, so ifft must return it (finite).  huge: c = min(2*DBL_MAX/n, DBL_MAX/2), i.e. n*c is not
+                // representable although X and x are; tiny: c = 1e-300 and c = 4*n*DBL_MIN (x/n stays a normal number).
+                {
+                    const cld uamp(0.6L, -0.8L);
+                    const ld cs[3] = {(ld)std::min(2.0 * (DBL_MAX / n), DBL_MAX / 2), 1e-300L, (ld)(4.0 * n * DBL_MIN)};
+                    const char* cn[3] = {"huge(2*DBL_MAX/n)", "tiny(1e-300)", "tiny(4n*DBL_MIN)"};
+                    std::set<int> ms = {0, n / 2, n - 1};
+                    for (int ci = 0; ci < 3; ++ci) {
+                        wk = std::string("ifft ") + cn[ci] + " column: rel l2 err/(n eps)";
+                        for (int m : ms) {
+                            a.assign((size_t)n, cld(0));
+                            b.resize((size_t)n);
+                            a[(size_t)m] = rounded(std::vector<cld>{cs[ci] * uamp})[0];
+                            for (int k = 0; k < n; ++k) b[(size_t)k] = a[(size_t)m] * L.tw[(size_t)(((long long)m * k) % n)];
+                            apis(s, plan, b, a, fmt("%s column@%d", cn[ci], m));
+                        }
+                    }
+                    wk = "ifft: rel l2 err/(n eps)";
                 }
             });
         }
@@ -474,6 +495,29 @@ int main(int argc, char** argv) {
                     judge(s, "ifft", "ifft-roundtrip", wk2, y1, x, n, nm);
                     arr_cmplx y2 = plan.solve(X);
                     judge(s, "IfftPlan::solve", "ifft-roundtrip", wk2, y2, x, n, nm);
+                }
+                // extreme-magnitude impulses (|c| = 1e300 / 1e-300): fft(x) has all bins of that magnitude; judged when the
+                // library's forward transform returned finite values (its accuracy is C01's business)
+                for (int ci = 0; ci < 2; ++ci) {
+                    const ld c = ci == 0 ? 1e300L : 1e-300L;
+                    std::set<int> ms = {0, n / 2, n - 1};
+                    for (int m : ms) {
+                        x.assign((size_t)n, cld(0));
+                        x[(size_t)m] = rounded(std::vector<cld>{c * cld(0.6L, -0.8L)})[0];
+                        const arr_cmplx X = fft(to_arr(x));
+                        if (X.size() != n || !finite_all(to_cld(X))) {
+                            s.note(pfx + "ifft.roundtrip: extreme impulse skipped, fft output not finite / wrong size");
+                            continue;
+                        }
+                        const std::string wk3 = std::string("ifft(fft(") + (ci == 0 ? "1e300" : "1e-300") + " impulse)): rel l2 err/(n eps)";
+                        const std::string nm = fmt("%s impulse@%d", ci == 0 ? "1e300" : "1e-300", m);
+                        arr_cmplx y1 = ifft(X);
+                        judge(s, "ifft", "ifft-roundtrip", wk3, y1, x, n, nm);
+                        arr_cmplx y2 = plan.solve(X);
+                        judge(s, "IfftPlan::solve", "ifft-roundtrip", wk3, y2, x, n, nm);
+                        arr_cmplx y3 = plan(X);
+                        judge(s, "IfftPlan::operator()", "ifft-roundtrip", wk3, y3, x, n, nm);
+                    }
                 }
             });
         }
